@@ -14,6 +14,7 @@ import (
 	"encoding/hex"
 	"encoding/json"
 	"fmt"
+	"github.com/jrhy/s3db/kv"
 	"io"
 	"sort"
 	"strings"
@@ -38,6 +39,9 @@ type Store struct {
 	logS3     bool
 	logNodes  bool
 	logReads  bool
+	// gobRoots: version objects that arrive in the JSON root format are stored in the earlier gob root format
+	// (handles that load gob roots keep writing gob themselves): C17 on the gob format
+	gobRoots bool
 }
 
 func NewStore(name string, tr *Tracer) *Store {
@@ -75,9 +79,10 @@ type Client struct {
 	allEff   int // mutations that changed the bucket (PUT of new/different content, DELETE of an existing object)
 
 	// when / perm plan for the next mergeRoots of this client
-	planWhen *time.Time
-	planPerm int // permutation index, -1 none
-	lastList []string
+	planWhen  *time.Time
+	planPerm  int // permutation index, -1 none
+	lastList  []string
+	lastOrder []string // fold order of the last mergeRoots of this client (version tokens)
 
 	// scheduler gate: when gated, every root-level request waits for a grant.
 	gated   bool
@@ -227,7 +232,14 @@ func (c *Client) logReq(op, key, res string, body []byte) {
 				Size    uint64     `json:"Size"`
 				Height  int        `json:"Height"`
 			}
-			if json.Unmarshal(body, &r) == nil {
+			jb := body
+			if len(body) > 0 && body[0] != '{' {
+				if j, jerr := kv.VerifRootToJSON(body); jerr == nil {
+					jb = j
+					e["format"] = "gob"
+				}
+			}
+			if json.Unmarshal(jb, &r) == nil {
 				ps := []string{}
 				for _, p := range r.Parents {
 					ps = append(ps, s.tr.VersionToken(p))
@@ -347,6 +359,13 @@ func (c *Client) PutObjectWithContext(ctx aws.Context, in *s3.PutObjectInput, _ 
 	}
 	c.st.mu.Lock()
 	defer c.st.mu.Unlock()
+	if c.st.gobRoots {
+		if cls, _ := classify(*in.Key); (cls == "cur" || cls == "mrg") && len(b) > 0 && b[0] == '{' {
+			if g, gerr := kv.VerifRootToGob(b); gerr == nil {
+				b = g
+			}
+		}
+	}
 	if old, existed := c.st.objs[*in.Key]; !existed || !bytes.Equal(old, b) {
 		c.addEff()
 	}
@@ -488,6 +507,14 @@ func (s *Store) Listing() (cur, mrg, nodes []string) {
 	sort.Strings(mrg)
 	sort.Strings(nodes)
 	return
+}
+
+// Put overwrites an object behind the clients' backs (damage / format conversion by the scenario itself; not logged,
+// not counted as a rewrite by a client).
+func (s *Store) Put(key string, b []byte) {
+	s.mu.Lock()
+	defer s.mu.Unlock()
+	s.objs[key] = append([]byte{}, b...)
 }
 
 func (s *Store) Get(key string) ([]byte, bool) {
